@@ -13,7 +13,9 @@
 (*                 panicked?, hooks run?                                   *)
 (*   Text(l)       String / ParseLevel / MarshalText / UnmarshalText       *)
 (*   Nil(m)        method m of a filtered event: no callback of any kind,  *)
-(*                 no panic, a neutral result                              *)
+(*                 no panic, a neutral result, and no trace in what is     *)
+(*                 logged next (pooled Arr()/Dict() arguments go back as   *)
+(*                 if unused)                                              *)
 (*   Fatal(f)      Fatal() exits with status 1, filtered or not            *)
 (* TLC enumerates the Entry scripts; the other records are produced by     *)
 (* exhaustive loops of the player and validated here.                      *)
